@@ -263,6 +263,12 @@ def compare_values(impl_vs, model_vs, M, f32, pre=None):
 
 
 def agree_binop(c, io, mo, notes=None):
+    if io.get("detail") == "nonfinite" and "ok" in mo and "vs" in mo["ok"]:
+        # overflow of the float type that took part (float32: 3.4e38, float64: 1.8e308) is not a zero division
+        t = c["_t"]
+        limit = Fraction(10) ** (38 if (uses_f32(t["a"]) or uses_f32(t["b"])) else 308)
+        if any(abs(qparse(v)) >= limit for v in mo["ok"]["vs"]):
+            return None
     if "err" in io or "err" in mo:
         if ("err" in io) != ("err" in mo):
             return "one side fails: impl=%s model=%s" % (io, mo)
